@@ -21,7 +21,7 @@ COMPONENTS = {"real": ["pyjelly Stream classes, FrameFlow classes, all serialize
               "stub": ["reader: simkit.refdec", "output sink"]}
 ASSUMPTIONS = ["a TripleStream fed quads is judged on the triples (graph names are not part of a triples stream)",
                "rdflib inputs compared as sets"]
-PROBES = ["accepted", "raised", "nondelimited", "explicit_flow", "lattice_points"]
+PROBES = ["accepted", "raised", "nondelimited", "explicit_flow"]
 SHRINK_LISTS = ["ops"]
 
 GENERIC_ENTRIES = ["frames_gen", "frames_gen", "frames_sink", "flat_file", "flat_frames", "grouped_file"]
@@ -84,8 +84,8 @@ def execute(plan, sim):
         return [], None
     sim.count("accepted")
     key = point if len(stmts) >= 2 else None
-    sig = {"delimited": cfg["delimited"], "flow": cfg["flow"] or "inferred",
-           "flat_logical": cfg["logical"] in (1, 2), "entry": cfg["entry"], "integration": cfg["integration"]}
+    sig = {"delimited": cfg["delimited"], "explicit_flow": bool(cfg["flow"]),
+           "flat_logical": cfg["logical"] in (1, 2)}
     arity = effective_arity(cfg, stmts)
     proj = [st[:arity] if len(st) >= arity else st for st in stmts]
     if cfg["integration"] == "generic":
